@@ -684,6 +684,7 @@ def async_executor(func):
         task = asyncio.ensure_future(func())
         _running_tasks.add(task)
         task.add_done_callback(_running_tasks.discard)
+        return task
     else:
         event_loop.run_until_complete(func())
 
